@@ -1,4 +1,630 @@
+//! C13 — translated AIR constraints evaluate like the native constraint folder.
+//!
+//! Exhaustive enumeration of small AIRs ("specs": constraint trees over every leaf kind of
+//! the AirBuilder vocabulary, sharing on/off, 1–3 constraints, row filters, extension
+//! constraints, lookup contexts), each evaluated on four assignments by
+//!   (oracle)  p3's native verifier folders (`p3_uni_stark::VerifierConstraintFolder`,
+//!             `p3_lookup::folder::VerifierConstraintFolderWithLookups` + LogUp gadget), and
+//!   (subject) the repo's `RecursiveAir::eval_folded_circuit` → `CircuitBuilder::build` →
+//!             runner, reading the folded target's witness slot.
+//! Oracle: equality of the two folded values. No sampling: every family is a finite index
+//! range that is enumerated completely (or the cap is reported).
+
+mod air;
+mod common;
+mod engine;
+mod families;
+mod fixed;
+mod spec;
+
+use std::collections::HashSet;
+use std::sync::Mutex;
+use std::sync::atomic::{AtomicBool, AtomicU64, Ordering};
+
+use vpcore::rayon::prelude::*;
+use vpcore::serde_json::{Value, json};
+use vpcore::{Ctx, Histo, Report, finish};
+
+use engine::{ASSIGNMENTS, EvalError, FieldCfg, Outcome, eval_spec};
+use families::Family;
+use spec::*;
+
+fn fnv(s: &str) -> u64 {
+    let mut h: u64 = 0xcbf29ce484222325;
+    for b in s.bytes() {
+        h ^= b as u64;
+        h = h.wrapping_mul(0x100000001b3);
+    }
+    h
+}
+
+/// What went wrong for one spec (None = both sides agree on every assignment).
+#[derive(Clone, Debug)]
+struct Bad {
+    clause: &'static str, // "value" | "run" | "build"
+    /// diagnosed cause, if the mismatch is fully explained by it (see `diagnose`)
+    class: Option<&'static str>,
+    detail: String,
+}
+
+struct Judged {
+    bad: Option<Bad>,
+    nontrivial: bool,
+    /// native folded value on genericA (for the distinct-outcome count)
+    sig: u64,
+    sample: Option<Value>,
+}
+
+fn is_zero(x: &[u64]) -> bool {
+    x.iter().all(|c| *c == 0)
+}
+
+fn clip(s: String) -> String {
+    if s.len() > 400 { format!("{}…(+{} chars)", &s[..400], s.len() - 400) } else { s }
+}
+
+fn judge_outcome(res: Result<Outcome, EvalError>, label: &dyn Fn() -> String, want_sample: bool) -> (Judged, Vec<Option<Vec<u64>>>) {
+    match res {
+        Err(EvalError::Machinery(m)) => vpcore::machinery_error(&m),
+        Err(EvalError::Build(m)) => (
+            Judged { bad: Some(Bad { clause: "build", class: None, detail: m }), nontrivial: false, sig: 0, sample: None },
+            vec![],
+        ),
+        Ok(out) => {
+            let mut bad = None;
+            let mut nontrivial = false;
+            for (i, (nat, got)) in out.per.iter().enumerate() {
+                if !is_zero(nat) {
+                    nontrivial = true;
+                }
+                if bad.is_some() {
+                    continue;
+                }
+                match got {
+                    Ok(g) if g == nat => {}
+                    Ok(g) => {
+                        bad = Some(Bad {
+                            clause: "value",
+                            class: None,
+                            detail: format!(
+                                "assignment {}: native folder {:?} but circuit target {:?}",
+                                ASSIGNMENTS[i], nat, g
+                            ),
+                        })
+                    }
+                    Err(e) => {
+                        bad = Some(Bad {
+                            clause: "run",
+                            class: None,
+                            detail: format!("assignment {}: circuit did not produce a value: {e}", ASSIGNMENTS[i]),
+                        })
+                    }
+                }
+            }
+            let sig = fnv(&format!("{:?}", out.per[2].0));
+            let sample = want_sample.then(|| {
+                json!({
+                    "spec": clip(label()),
+                    "assignment": ASSIGNMENTS[2],
+                    "native_folded": out.per[2].0,
+                    "circuit_folded": out.per[2].1.as_ref().ok(),
+                    "uni_and_batch_native_agree": out.oracle_cross_checked,
+                })
+            });
+            let got = out.per.iter().map(|(_, g)| g.as_ref().ok().cloned()).collect();
+            (Judged { bad, nontrivial, sig, sample }, got)
+        }
+    }
+}
+
+pub const CLASS_EMISSION_ORDER: &str = "ext-constraint-emitted-before-base-constraint";
+
+/// A value mismatch of an AIR that emits an extension constraint BEFORE a base constraint is
+/// attributed to the emission-order defect iff the circuit's values equal, on every
+/// assignment, p3's native fold of the very same constraints emitted base-first (stable
+/// partition). Anything not explained exactly that way keeps its own key.
+fn diagnose(f: FieldCfg, spec: &Spec, got: &[Option<Vec<u64>>], seed: u64) -> Option<&'static str> {
+    let first_base_after_ext = spec
+        .cons
+        .iter()
+        .position(|c| matches!(c, Con::E(..)))
+        .is_some_and(|p| spec.cons[p..].iter().any(|c| matches!(c, Con::B(..))));
+    if !first_base_after_ext {
+        return None;
+    }
+    let mut re = spec.clone();
+    re.cons.sort_by_key(|c| matches!(c, Con::E(..))); // stable: base first, order kept otherwise
+    let want = engine::native_values(f, &re, seed);
+    (got.len() == want.len() && got.iter().zip(&want).all(|(g, w)| g.as_ref() == Some(w))).then_some(CLASS_EMISSION_ORDER)
+}
+
+fn judge(f: FieldCfg, spec: &Spec, seed: u64, want_sample: bool) -> Judged {
+    let (mut j, got) = judge_outcome(eval_spec(f, spec, seed), &|| spec.canon(), want_sample);
+    if let Some(b) = &mut j.bad
+        && b.clause == "value"
+    {
+        b.class = diagnose(f, spec, &got, seed);
+    }
+    j
+}
+
+// ---------------------------------------------------------------------------------------
+// minimisation of a violating spec (greedy, strictly decreasing size ⇒ terminates)
+
+fn tree_variants<T: Tree>(t: &T, rebuild: &dyn Fn(&T, usize, T) -> T) -> Vec<T> {
+    // (a) replace t by one of its children, (b) shrink inside one child
+    let ch = t.children();
+    let mut out: Vec<T> = ch.clone();
+    for (i, c) in ch.iter().enumerate() {
+        for v in tree_variants(c, rebuild) {
+            out.push(rebuild(t, i, v));
+        }
+    }
+    out
+}
+fn rebuild_bt(t: &BT, i: usize, v: BT) -> BT {
+    match t {
+        BT::Neg(_) => BT::Neg(Box::new(v)),
+        BT::Bin(o, a, b) => {
+            if i == 0 {
+                BT::Bin(*o, Box::new(v), b.clone())
+            } else {
+                BT::Bin(*o, a.clone(), Box::new(v))
+            }
+        }
+        _ => unreachable!(),
+    }
+}
+fn rebuild_et(t: &ET, i: usize, v: ET) -> ET {
+    match t {
+        ET::Neg(_) => ET::Neg(Box::new(v)),
+        ET::Bin(o, a, b) => {
+            if i == 0 {
+                ET::Bin(*o, Box::new(v), b.clone())
+            } else {
+                ET::Bin(*o, a.clone(), Box::new(v))
+            }
+        }
+        _ => unreachable!(),
+    }
+}
+fn et_variants(t: &ET) -> Vec<ET> {
+    let mut out = tree_variants(t, &rebuild_et);
+    // also shrink inside lifted base sub-trees
+    fn inner(t: &ET, out: &mut Vec<ET>, ctx: &dyn Fn(ET) -> ET) {
+        match t {
+            ET::B(b) => {
+                for v in tree_variants(&**b, &rebuild_bt) {
+                    out.push(ctx(ET::B(Box::new(v))));
+                }
+            }
+            ET::Neg(a) => inner(a, out, &|x| ctx(ET::Neg(Box::new(x)))),
+            ET::Bin(o, a, b) => {
+                inner(a, out, &|x| ctx(ET::Bin(*o, Box::new(x), b.clone())));
+                inner(b, out, &|x| ctx(ET::Bin(*o, a.clone(), Box::new(x))));
+            }
+            _ => {}
+        }
+    }
+    inner(t, &mut out, &|x| x);
+    out
+}
+
+fn shrink_candidates(s: &Spec) -> Vec<Spec> {
+    let mut out = vec![];
+    if s.cons.len() > 1 {
+        for i in 0..s.cons.len() {
+            let mut c = s.clone();
+            c.cons.remove(i);
+            out.push(c);
+        }
+    }
+    for i in 0..s.lookups.len() {
+        let mut c = s.clone();
+        c.lookups.remove(i);
+        out.push(c);
+        if s.lookups[i].tuples.len() > 1 {
+            for j in 0..s.lookups[i].tuples.len() {
+                let mut c = s.clone();
+                c.lookups[i].tuples.remove(j);
+                out.push(c);
+            }
+        }
+        for j in 0..s.lookups[i].tuples.len() {
+            if s.lookups[i].tuples[j].0.len() > 1 {
+                let mut c = s.clone();
+                c.lookups[i].tuples[j].0.pop();
+                out.push(c);
+            }
+        }
+    }
+    if s.share {
+        let mut c = s.clone();
+        c.share = false;
+        out.push(c);
+    }
+    for (i, con) in s.cons.iter().enumerate() {
+        match con {
+            Con::B(f, t) => {
+                if *f != Filt::None {
+                    let mut c = s.clone();
+                    c.cons[i] = Con::B(Filt::None, t.clone());
+                    out.push(c);
+                }
+                for v in tree_variants(t, &rebuild_bt) {
+                    let mut c = s.clone();
+                    c.cons[i] = Con::B(*f, v);
+                    out.push(c);
+                }
+            }
+            Con::E(f, t) => {
+                if *f != Filt::None {
+                    let mut c = s.clone();
+                    c.cons[i] = Con::E(Filt::None, t.clone());
+                    out.push(c);
+                }
+                for v in et_variants(t) {
+                    let mut c = s.clone();
+                    c.cons[i] = Con::E(*f, v);
+                    out.push(c);
+                }
+            }
+        }
+    }
+    // Replace EVERY occurrence of one distinct base sub-tree by one of its children (keeps
+    // structurally equal sub-trees equal, i.e. keeps the sharing pattern of a `share` spec).
+    let mut subs: Vec<BT> = vec![];
+    fn collect_b(t: &BT, subs: &mut Vec<BT>) {
+        if t.depth() > 0 && !subs.contains(t) {
+            subs.push(t.clone());
+        }
+        for c in t.children() {
+            collect_b(&c, subs);
+        }
+    }
+    fn collect_e(t: &ET, subs: &mut Vec<BT>) {
+        match t {
+            ET::B(b) => collect_b(b, subs),
+            _ => {
+                for c in t.children() {
+                    collect_e(&c, subs);
+                }
+            }
+        }
+    }
+    fn sub_b(t: &BT, from: &BT, to: &BT) -> BT {
+        if t == from {
+            return to.clone();
+        }
+        match t {
+            BT::Neg(a) => BT::Neg(Box::new(sub_b(a, from, to))),
+            BT::Bin(o, a, b) => BT::Bin(*o, Box::new(sub_b(a, from, to)), Box::new(sub_b(b, from, to))),
+            x => x.clone(),
+        }
+    }
+    fn sub_e(t: &ET, from: &BT, to: &BT) -> ET {
+        match t {
+            ET::B(b) => ET::B(Box::new(sub_b(b, from, to))),
+            ET::Neg(a) => ET::Neg(Box::new(sub_e(a, from, to))),
+            ET::Bin(o, a, b) => ET::Bin(*o, Box::new(sub_e(a, from, to)), Box::new(sub_e(b, from, to))),
+            x => x.clone(),
+        }
+    }
+    for con in &s.cons {
+        match con {
+            Con::B(_, t) => collect_b(t, &mut subs),
+            Con::E(_, t) => collect_e(t, &mut subs),
+        }
+    }
+    if subs.len() <= 64 {
+        for from in &subs {
+            for to in from.children() {
+                let mut c = s.clone();
+                for con in c.cons.iter_mut() {
+                    *con = match con {
+                        Con::B(f, t) => Con::B(*f, sub_b(t, from, &to)),
+                        Con::E(f, t) => Con::E(*f, sub_e(t, from, &to)),
+                    };
+                }
+                if c != *s {
+                    out.insert(0, c);
+                }
+            }
+        }
+    }
+    out.retain(|c| c.valid() && !c.cons.is_empty());
+    out
+}
+
+/// Greedy shrink that keeps the clause AND the diagnosed class of the violation.
+fn minimise(f: FieldCfg, spec: &Spec, seed: u64) -> (Spec, Bad) {
+    let mut cur = spec.clone();
+    let mut cur_bad = judge(f, &cur, seed, false).bad.expect("minimise called on a passing spec");
+    let (clause, class) = (cur_bad.clause, cur_bad.class);
+    'outer: loop {
+        for cand in shrink_candidates(&cur) {
+            if let Some(b) = judge(f, &cand, seed, false).bad
+                && b.clause == clause
+                && b.class == class
+            {
+                cur = cand;
+                cur_bad = b;
+                continue 'outer;
+            }
+        }
+        return (cur, cur_bad);
+    }
+}
+
+// ---------------------------------------------------------------------------------------
+
+#[derive(Default)]
+struct FamStats {
+    total: u64,
+    evaluated: AtomicU64,
+    nontrivial: AtomicU64,
+    with_sharing: AtomicU64,
+    ext_mode: AtomicU64,
+    /// mismatches not explained by a diagnosed class
+    violating: AtomicU64,
+    /// mismatches fully explained by a diagnosed class (one finding, many instances)
+    classed: AtomicU64,
+}
+
+/// Unclassified violating specs that get minimised + their own key; later ones are only
+/// counted (a failing run does not need thousands of replay files, and enumeration is
+/// simplest-first).
+const MAX_MINIMISED: u64 = 40;
+/// Unclassified violating specs after which the exploration stops early.
+const STOP_AFTER: u64 = 5000;
+/// Cap of the hash sets used to *measure* distinctness (memory), reported if hit.
+const SET_CAP: usize = 4_000_000;
+
+fn record_violation(report: &Report, f: FieldCfg, spec: &Spec, bad: &Bad, seed: u64, minimised: &AtomicU64) {
+    if let Some(c) = bad.class {
+        // the key of a diagnosed class does not depend on the minimal form: minimise only the
+        // first instance (for the replay file), count the others
+        let key = format!("{}:{}", bad.clause, c);
+        if report.has(&key) {
+            report.violation(key, "", Value::Null);
+            return;
+        }
+    } else if minimised.fetch_add(1, Ordering::Relaxed) >= MAX_MINIMISED {
+        return;
+    }
+    let (min, mbad) = minimise(f, spec, seed);
+    report.violation(
+        violation_key(f, &min, &mbad),
+        format!("[{}] folded constraint value differs for AIR {} — {}", f.tag(), min.canon(), mbad.detail),
+        json!({"spec": min, "original_spec": spec, "seed": seed, "field": f}),
+    );
+}
+
+/// Canonical key: the diagnosed class if there is one (all its minimal forms are the same
+/// defect), otherwise clause + canonical text of the minimised AIR.
+fn violation_key(f: FieldCfg, min: &Spec, bad: &Bad) -> String {
+    // the primary field keeps the plain key; other fields are tagged
+    let tag = if f == FieldCfg::BabyBear4 { String::new() } else { format!("@{}", f.tag()) };
+    match bad.class {
+        Some(c) => format!("{}:{}", bad.clause, c),
+        None => format!("{}:{}{}", bad.clause, min.canon(), tag),
+    }
+}
+
 fn main() {
-    eprintln!("MACHINERY-ERROR: check c13 not built yet");
-    std::process::exit(2);
+    let ctx = Ctx::from_args("C13", "exploration");
+    vpcore::install_quiet_panic_hook();
+    let report = Report::new();
+    let seed = ctx.seed;
+
+    if let Some(path) = &ctx.replay {
+        let v = vpcore::load_replay(path);
+        let rseed = v["seed"].as_u64().unwrap_or(seed);
+        let sample;
+        if let Some(name) = v["fixed"].as_str() {
+            let f = fixed::fixed_programs()
+                .into_iter()
+                .find(|f| f.name == name)
+                .unwrap_or_else(|| vpcore::machinery_error("replay names an unknown fixed AIR"));
+            println!("replaying fixed AIR {name}");
+            let (_, res) = (f.eval)(rseed);
+            let (j, _) = judge_outcome(res, &|| name.to_string(), true);
+            if let Some(b) = &j.bad {
+                report.violation(format!("{}:fixed:{}", b.clause, name), format!("{name}: {}", b.detail), v.clone());
+            }
+            sample = j.sample;
+        } else {
+            let spec: Spec = vpcore::serde_json::from_value(v["spec"].clone())
+                .unwrap_or_else(|e| vpcore::machinery_error(&format!("replay has no spec: {e}")));
+            let f: FieldCfg = vpcore::serde_json::from_value(v["field"].clone()).unwrap_or(FieldCfg::BabyBear4);
+            println!("replaying [{}] {}", f.tag(), spec.canon());
+            let j = judge(f, &spec, rseed, true);
+            if let Some(b) = &j.bad {
+                println!("  {} (class {:?}): {}", b.clause, b.class, b.detail);
+                let (min, mbad) = minimise(f, &spec, rseed);
+                report.violation(
+                    violation_key(f, &min, &mbad),
+                    format!("[{}] folded constraint value differs for AIR {} — {}", f.tag(), min.canon(), mbad.detail),
+                    json!({"spec": min, "original_spec": spec, "seed": rseed, "field": f}),
+                );
+            }
+            sample = j.sample;
+        }
+        println!("{}", vpcore::serde_json::to_string_pretty(&sample).unwrap());
+        let cov = json!({"evaluations": ASSIGNMENTS.len(), "distinct_nontrivial": 2,
+            "rule": "replay of one stored case", "samples": [sample], "replay": true});
+        finish(&ctx, cov, vec![], &report);
+    }
+
+    let fams: Vec<Family> = families::families(ctx.quick());
+    let only = ctx.opt("family").map(|s| s.to_string());
+    let stats: Vec<FamStats> = fams.iter().map(|f| FamStats { total: f.count, ..Default::default() }).collect();
+    let minimised = AtomicU64::new(0);
+    let stop = AtomicBool::new(false);
+    let sigs: Mutex<HashSet<u64>> = Mutex::new(HashSet::new());
+    let canon_seen: Mutex<HashSet<u64>> = Mutex::new(HashSet::new());
+    let set_capped = AtomicBool::new(false);
+    let samples: Mutex<Vec<Value>> = Mutex::new(vec![]);
+    let clauses = Histo::new();
+    let mut timed_out = false;
+
+    // ---- fixed programs (repo AIRs) -----------------------------------------------------
+    let mut fixed_rows = vec![];
+    let mut fixed_evaluated = 0u64;
+    if only.is_none() || only.as_deref() == Some("fixed") {
+        for f in fixed::fixed_programs() {
+            let (nl, res) = (f.eval)(seed);
+            let (j, _) = judge_outcome(res, &|| f.name.clone(), true);
+            fixed_evaluated += 1;
+            if let Some(b) = &j.bad {
+                clauses.add(b.clause);
+                report.violation(
+                    format!("{}:fixed:{}", b.clause, f.name),
+                    format!("folded constraint value differs for repo AIR {} — {}", f.name, b.detail),
+                    json!({"fixed": f.name, "seed": seed}),
+                );
+            } else {
+                clauses.add("equal");
+            }
+            if j.nontrivial {
+                sigs.lock().unwrap().insert(j.sig);
+                canon_seen.lock().unwrap().insert(fnv(&f.name));
+            }
+            fixed_rows.push(json!({"air": f.name, "lookup_contexts": nl, "nontrivial": j.nontrivial,
+                "agrees": j.bad.is_none(), "sample": j.sample}));
+        }
+        eprintln!("[c13] fixed repo AIRs: {fixed_evaluated} evaluated  {:.1}s", ctx.elapsed_s());
+    }
+
+    // ---- generated families -------------------------------------------------------------
+    for (fi, fam) in fams.iter().enumerate() {
+        if let Some(o) = &only
+            && *o != fam.name
+        {
+            continue;
+        }
+        let st = &stats[fi];
+        let t0 = ctx.elapsed_s();
+        const CHUNK: u64 = 64;
+        let nchunks = fam.count.div_ceil(CHUNK);
+        (0..nchunks).into_par_iter().for_each(|ch| {
+            if stop.load(Ordering::Relaxed) || ctx.out_of_time() {
+                return;
+            }
+            let mut local_sigs = Vec::with_capacity(CHUNK as usize);
+            let mut local_canon = Vec::with_capacity(CHUNK as usize);
+            for idx in ch * CHUNK..((ch + 1) * CHUNK).min(fam.count) {
+                let Some(spec) = (fam.spec_at)(idx) else {
+                    // index maps to a spec already covered elsewhere in the same family
+                    continue;
+                };
+                let want_sample = idx == fam.count / 2;
+                let j = judge(fam.field, &spec, seed, want_sample);
+                st.evaluated.fetch_add(1, Ordering::Relaxed);
+                if spec.share {
+                    st.with_sharing.fetch_add(1, Ordering::Relaxed);
+                }
+                if spec.is_ext_mode() {
+                    st.ext_mode.fetch_add(1, Ordering::Relaxed);
+                }
+                if j.nontrivial {
+                    st.nontrivial.fetch_add(1, Ordering::Relaxed);
+                    local_sigs.push(j.sig);
+                    local_canon.push(fnv(&spec.canon()));
+                }
+                if let Some(mut s) = j.sample {
+                    s["family"] = json!(fam.name);
+                    samples.lock().unwrap().push(s);
+                }
+                match &j.bad {
+                    None => clauses.add("equal"),
+                    Some(b) => {
+                        match b.class {
+                            Some(c) => {
+                                clauses.add(&format!("{}:{}", b.clause, c));
+                                st.classed.fetch_add(1, Ordering::Relaxed);
+                            }
+                            None => {
+                                clauses.add(b.clause);
+                                if st.violating.fetch_add(1, Ordering::Relaxed) > STOP_AFTER {
+                                    stop.store(true, Ordering::Relaxed);
+                                }
+                            }
+                        }
+                        record_violation(&report, fam.field, &spec, b, seed, &minimised);
+                    }
+                }
+            }
+            for (set, local) in [(&sigs, local_sigs), (&canon_seen, local_canon)] {
+                let mut g = set.lock().unwrap();
+                if g.len() < SET_CAP {
+                    g.extend(local);
+                } else {
+                    set_capped.store(true, Ordering::Relaxed);
+                }
+            }
+        });
+        let ev = st.evaluated.load(Ordering::Relaxed);
+        eprintln!(
+            "[c13] family {:<40} specs {:>9}/{:<9} nontrivial {:>9} shared {:>8} unexplained {:>6} classed {:>6}  {:.1}s",
+            fam.name,
+            ev,
+            fam.count,
+            st.nontrivial.load(Ordering::Relaxed),
+            st.with_sharing.load(Ordering::Relaxed),
+            st.violating.load(Ordering::Relaxed),
+            st.classed.load(Ordering::Relaxed),
+            ctx.elapsed_s() - t0
+        );
+        if ctx.out_of_time() {
+            timed_out = true;
+        }
+    }
+
+    let mut per_family = vec![];
+    let mut total_specs = fixed_evaluated;
+    let mut total_nontrivial = 0u64;
+    for (f, s) in fams.iter().zip(&stats) {
+        let ev = s.evaluated.load(Ordering::Relaxed);
+        total_specs += ev;
+        total_nontrivial += s.nontrivial.load(Ordering::Relaxed);
+        per_family.push(json!({
+            "family": f.name, "field": f.field.tag(), "what": f.what, "index_space": f.count, "specs_evaluated": ev,
+            "nontrivial": s.nontrivial.load(Ordering::Relaxed),
+            "built_with_shared_objects": s.with_sharing.load(Ordering::Relaxed),
+            "ext_mode": s.ext_mode.load(Ordering::Relaxed),
+            "mismatch_unexplained": s.violating.load(Ordering::Relaxed),
+            "mismatch_diagnosed_class": s.classed.load(Ordering::Relaxed),
+        }));
+    }
+    let stopped = stop.load(Ordering::Relaxed);
+    let all_done = !timed_out && !stopped && only.is_none();
+    let distinct_specs = canon_seen.lock().unwrap().len();
+    let distinct_values = sigs.lock().unwrap().len();
+    let cov = json!({
+        "evaluations": total_specs * ASSIGNMENTS.len() as u64,
+        "programs": total_specs,
+        "assignments_per_program": ASSIGNMENTS.len(),
+        "assignments": ASSIGNMENTS,
+        "distinct_nontrivial": distinct_specs,
+        "distinct_count_is_lower_bound_set_capped": set_capped.load(Ordering::Relaxed),
+        "nontrivial_programs_incl_cross_family_repeats": total_nontrivial,
+        "distinct_folded_values_on_genericA": distinct_values,
+        "rule": "a program (AIR spec) is non-trivial if p3's native folder yields a non-zero folded value for at least one of the four assignments; distinct = distinct canonical spec text among those (measured with a hash set, capped at 4e6 entries); distinct_folded_values = number of different native folded values on assignment genericA",
+        "exhaustive": all_done,
+        "timed_out": timed_out,
+        "stopped_early_on_violations": stopped,
+        "families": per_family,
+        "fixed_repo_airs": fixed_rows,
+        "verdicts": clauses.to_json(),
+        "samples": *samples.lock().unwrap(),
+    });
+    let assumptions = vec![
+        "Primary field: BabyBear with its degree-4 binomial extension (p3_test_utils::baby_bear_params). Goldilocks/degree-2 and KoalaBear/quintic-trinomial are explored on a subset of the families only (see families[].field).".to_string(),
+        "Generated AIRs have the fixed shape 2 main / 2 preprocessed / 2 public / 2 periodic columns; permutation width, challenges and cumulated values follow the number of lookup contexts exactly as p3-batch-stark lays them out. The fixed repo AIRs use their own shapes.".to_string(),
+        "Opened values, selectors, periodic values and alpha are free inputs of both folders (the property quantifies over arbitrary values), not values of an actual trace.".to_string(),
+        "Sharing is produced the way AIR code produces it: one expression object re-used through .clone(); hand-built Arc aliasing that the AirBuilder API cannot produce is out of scope.".to_string(),
+        "Oracle = p3 0.6.3 native folders (uni-stark VerifierConstraintFolder for base-only AIRs, cross-checked against p3-lookup's VerifierConstraintFolderWithLookups + LogUpGadget::eval_air_and_lookups, which is the only oracle for extension constraints and lookups).".to_string(),
+    ];
+    finish(&ctx, cov, assumptions, &report);
 }
